@@ -186,6 +186,8 @@ def string_value(g: L.G) -> str:
 def comment_value(g: L.G) -> str:
     """BlockComment value domain: any str whose line breaks are \\r*\\n (no bare \\r)."""
     def line() -> str:
+        if g.p(0.08):
+            return g.pick([' ', '  ', '\t', ' \t'])   # a line of blanks only
         if g.p(0.25):
             return ''.join(g.pick([h for h in L.HAZARD]) for _ in range(g.n(0, 6)))
         if g.p(0.1):
